@@ -1,6 +1,6 @@
 #![deny(missing_docs)]
 
-use std::collections::HashMap;
+use std::collections::{HashMap, HashSet};
 use std::vec::Vec;
 
 use crate::expressions::parser::static_analysis::run_static_analysis_on_node;
@@ -3042,18 +3042,32 @@ impl<'a> Model<'a> {
             self.clear_lambdas();
 
             // Phase 1: evaluate spill cells, correcting their order when needed.
+            // `evaluated_under[j]` are the cells that were evaluated because spill cell `j`
+            // needed them (the spill cell itself and every cell it read, transitively).
+            let mut evaluated_under: Vec<Vec<CellReferenceIndex>> = Vec::new();
+            let mut seen: HashSet<CellReferenceIndex> = HashSet::new();
             for i in 0..self.spill_cells.len() {
                 let spill_cell = self.spill_cells[i];
                 self.evaluate_cell(spill_cell);
+                let mut fresh = vec![spill_cell];
+                for key in self.support.keys() {
+                    if seen.insert(*key) && *key != spill_cell {
+                        fresh.push(*key);
+                    }
+                }
+                evaluated_under.push(fresh);
 
                 // Find every cell position written by this spill (anchor + spill cells).
                 let spill_area = self.get_spill_area(spill_cell);
 
                 // If any of those positions is a dependency of a spill cell that was
-                // evaluated earlier (index j < i), the current cell must come first.
+                // evaluated earlier (index j < i) - directly or through a regular cell it
+                // read - the current cell must come first.
                 for j in 0..i {
-                    let prev = self.spill_cells[j];
-                    if self.position_in_support(prev, &spill_area) {
+                    if evaluated_under[j]
+                        .iter()
+                        .any(|c| self.position_in_support(*c, &spill_area))
+                    {
                         let moved = self.spill_cells.remove(i);
                         self.spill_cells.insert(j, moved);
                         retry = true;
